@@ -103,6 +103,11 @@ func (e *kvElection) checkKeyAndReelect(ctx context.Context) {
 	if e.IsLeader() {
 		return
 	}
+	// The loops select between ctx.Done() and their ticker; when both are
+	// ready Go picks at random. A stopped election must not start another read.
+	if ctx.Err() != nil {
+		return
+	}
 
 	entry, err := e.kv.Get(e.key)
 	if err != nil {
